@@ -81,7 +81,17 @@ def wrong_values(p, name):
     if cls is P.TupleParameter:
         return [("x", "ParameterNotValid"), (5, "ParameterNotValid"), ([1, 2], "ParameterNotValid")]
     if cls is P.DataTypeParameter:
-        return [("Nope", "ParameterNotValid"), (5, "ParameterNotValid"), (["Float"], "ParameterNotValid")]
+        # (type names that only another library's reader knows are no type names here)
+        return [("Nope", "ParameterNotValid"), (5, "ParameterNotValid"), (["Float"], "ParameterNotValid")] + \
+            [(n, "ParameterNotValid") for n in ("Positive Integer", "Fuzzy", "Positive Float") if n not in p.valid_types]
+
+    return []
+
+
+def documented_wrong(cls, name):
+    """what the documentation of a built-in command rules out, written down here rather than read from the parameter object (which a shared table could have altered)"""
+    if cls.__module__ == "mpilot.libraries.eems.csv.io" and cls.name == "EEMSRead" and name == "DataType":
+        return [(n, "ParameterNotValid") for n in ("Positive Integer", "Fuzzy", "Positive Float")]
     return []
 
 
@@ -191,7 +201,8 @@ def run(ctx):
             for name, p in cls.inputs.items():
                 if name == "Fail":
                     continue
-                for v, err in wrong_values(p, name):
+                wv = wrong_values(p, name)
+                for v, err in wv + [x for x in documented_wrong(cls, name) if x not in wv]:
                     args = [(n, x) for n, x in call[2] if n != name] + [(name, v)]
                     c2 = cmds[:-1] + [(call[0], call[1], args)]
                     sc = Scenario(c2, wd=tmp, libs=LIBS)
@@ -253,6 +264,19 @@ def run(ctx):
         for cname, arg in bad:
             sc = Scenario(producers(env) + [(prod, pcls, []), ("T", cname, [(arg, Name(prod))])], wd=tmp, libs=LIBS)
             scs.append((sc, (err, sc.lines[-1][1][0]), "derived-command:%s->%s" % (pcls, cname)))
+    # one result with a legitimate consumer AND a consumer of the wrong fuzziness, in both orders: the wrong one is rejected whatever was accepted before
+    for res, okc, badc, err in (("Fz", ("FuzzyNot", "InFieldName", False), ("Sum", "InFieldNames", True), "ResultIsFuzzy"), ("Fz", ("F", "FData", False), ("D", "Data", False), "ResultIsFuzzy"),
+                                ("Rd", ("Sum", "InFieldNames", True), ("FuzzyNot", "InFieldName", False), "ResultNotFuzzy"), ("Rd", ("D", "DataList", True), ("F", "FDataList", True), "ResultNotFuzzy")):
+        for first_ok in (True, False):
+            def call(nm, spec):
+                cname, arg, listy = spec
+                return (nm, cname, [(arg, [Name(res)] if listy else Name(res))])
+            pair = [call("Good", okc), call("Wrong", badc)]
+            if not first_ok:
+                pair.reverse()
+            sc = Scenario(producers(env) + pair, wd=tmp, libs=LIBS)
+            idx = len(sc.commands) - (1 if first_ok else 2)
+            scs.append((sc, (err, sc.lines[idx][1][0]), "two-consumers:%s" % res))
     # models extended through add_command after a successful run: the additions are validated like everything else, before anything executes
     ext = []
     for _ in range(ctx.budget(10, 300)):
